@@ -10,6 +10,7 @@
 #include <sys/epoll.h>
 #include <sys/eventfd.h>
 #include <sys/timerfd.h>
+#include <sys/signalfd.h>
 #include <sys/time.h>
 #include <poll.h>
 #include <errno.h>
@@ -26,7 +27,7 @@
 
 const char *const sim_kind_names[K_NKINDS] = { "preempt", "pick", "stall", "weakcas",
 	"unusual", "wake", "futexspur", "semeintr", "epeintr", "iofault", "ioarg", "alloc",
-	"thrfail", "timefault", "harness" };
+	"thrfail", "timefault", "sigmiss", "harness" };
 const char *const sim_strat_names[STRAT_N] = { "walk", "pct", "stall", "fair" };
 
 enum { ST_RUNNABLE, ST_FUTEX, ST_SEM, ST_EPOLL, ST_POLL, ST_SLEEP, ST_JOIN, ST_EVENT,
@@ -869,8 +870,45 @@ static int io_fault(int fd, size_t *n, int is_write) {
 	}
 	return 0;
 }
+/* signalfd stand-in: an eventfd per signalfd() call; standard signals coalesce, and so does the eventfd counter */
+#define MAXSFD 8
+static struct { int used, fd, signo; } sfd[MAXSFD];
+int __wrap_signalfd(int fd, const sigset_t *mask, int flags) {
+	(void)flags;
+	if (fd != -1) { errno = EINVAL; return -1; }
+	int signo = 0;
+	for (int s = 1; s < 65; s++) if (sigismember(mask, s) == 1) { signo = s; break; }
+	int e = eventfd(0, EFD_NONBLOCK | EFD_CLOEXEC);
+	if (e < 0) return e;
+	for (int i = 0; i < MAXSFD; i++) if (!sfd[i].used) { sfd[i].used = 1; sfd[i].fd = e; sfd[i].signo = signo; return e; }
+	sim_fatal("too many signalfds");
+	return -1;
+}
+int sim_signalfd_of(int signo) {
+	for (int i = 0; i < MAXSFD; i++) if (sfd[i].used && sfd[i].signo == signo) return sfd[i].fd;
+	return -1;
+}
+void sim_signal_raise(int signo) {
+	if (active && self) step_common(self);
+	uint64_t one = 1;
+	for (int i = 0; i < MAXSFD; i++) if (sfd[i].used && sfd[i].signo == signo) {
+		if (__real_write(sfd[i].fd, &one, 8) != 8) sim_fatal("signalfd stand-in write");
+		io_dirty = 1;
+	}
+}
 ssize_t __wrap_read(int fd, void *b, size_t n) {
 	io_dirty = 1;
+	for (int i = 0; i < MAXSFD; i++) if (sfd[i].used && sfd[i].fd == fd && active && self) {
+		step_common(self);
+		if (n < sizeof(struct signalfd_siginfo)) { errno = EINVAL; return -1; }
+		// misfire: the signal was taken by a thread that had it unblocked; the library's handler blocks it there
+		// and raises it again, so it stays pending here
+		if ((sim_k.sigmiss_den || tape_replay) && decide(K_SIGMISS, 2, draw_bool(sim_k.sigmiss_den))) { errno = EAGAIN; return -1; }
+		uint64_t v;
+		if (__real_read(fd, &v, 8) != 8) { errno = EAGAIN; return -1; }
+		struct signalfd_siginfo *si = b; memset(si, 0, sizeof *si); si->ssi_signo = (uint32_t)sfd[i].signo;
+		return (ssize_t)sizeof *si;
+	}
 	if (!io_watched(fd)) return __real_read(fd, b, n);
 	step_common(self);
 	if (io_fault(fd, &n, 0)) { iocall(fd, 0, -1, errno, 0, 0); return -1; }
@@ -916,6 +954,7 @@ ssize_t __wrap_pwrite(int fd, const void *b, size_t n, off_t off) {
 int __wrap_close(int fd) {
 	io_dirty = 1;
 	for (int i = 0; i < MAXTFD; i++) if (tfd[i].used && tfd[i].fd == fd) tfd[i].used = 0;
+	for (int i = 0; i < MAXSFD; i++) if (sfd[i].used && sfd[i].fd == fd) sfd[i].used = 0;
 	if (fd >= 0 && fd < MAXFD) iow[fd].on = 0;
 	for (int i = 0; i < MAXREG; i++) if (epreg[i].events && epreg[i].fd == fd) epreg[i].events = 0;
 	return __real_close(fd);
